@@ -499,7 +499,7 @@ def run(ctx: common.Ctx):
       ctx.expect(flat_ok, 'flat-scan-empty-input', 'lax.scan of an empty input does not return (init, empty outputs)', inp)
       if flat_ok and impl[0] == 'value-error':
         zero_outer_rejected[0] += 1
-        if any(k['key'] == 'nested-scan-zero-outer' for k in ctx.known):
+        if True:   # a failure of the property on the real code: KNOWN-FINDING when recorded, VIOLATION otherwise
           ctx.fail('nested-scan-zero-outer', 'nested_checkpoint_scan raises ValueError (jnp.concatenate of an empty '
                    'sequence) for a nesting of product 0 with a zero in a non-innermost position and a body with an '
                    'output leaf, where lax.scan returns (init, empty outputs)', inp)
